@@ -146,7 +146,7 @@ pub fn run(ctx: &Ctx) -> Outcome {
         let iv_len = if *fam == "ige" { 2 * bs } else { bs };
         let key = &keys(seed, cfg.key_len)[0];
         let ncomp = tier.pick(7, 9);
-        let ndev = 4 * par + 3;
+        let ndev = (4 * par + 3).max(19);
         let kdev: usize = tier.pick(2, 3);
         let nbfs = tier.pick(24, 64).max(ndev);
         for fe in block_frontends(cfg, fam, *dir) {
@@ -204,7 +204,7 @@ pub fn run(ctx: &Ctx) -> Outcome {
                     }
                     rep.count("deviation_schedules", 2 * cuts_sets.len() as u64);
                     // (3) merged BFS over call sizes
-                    let mut sizes = vec![1, 2, par.saturating_sub(1), par, par + 1, 2 * par, 2 * par + 1, 3 * par + 1];
+                    let mut sizes = vec![1, 2, par.saturating_sub(1), par, par + 1, 2 * par, 2 * par + 1, 3 * par + 1, 8, 9, 16, 17];
                     sizes.retain(|s| *s >= 1);
                     sizes.sort();
                     sizes.dedup();
